@@ -18,7 +18,7 @@ RULE = ('quick/thorough: EVERY non-decreasing spike-sample train of length <= L 
         'cluster-id list order (a permutation of gappy ids - small ones or, every fifth case, sparse ids up to 100000 - plus one id without spikes) rotating '
         'deterministically; plus seeded random long trains checked by a windowed pair count. '
         'cluster dtypes int64/int32/uint32/uint16 and integer or float time arrays rotate; float32 time arrays beyond sample 2**24 on an exactly representable grid; firing_rate with count products beyond 2**31. Each case checks one-sided counts (twice), the symmetrised array (4 relations), cluster_ids=None, '
-        'and firing_rate. Also: every bin size of 1..300 samples (thorough: ..2500) with lags that are exact multiples of the bin; call histories in one process (id lists of different dtypes with equal bytes; >= 2**16-entry results held and written to by the caller across later calls of the same shape). non-trivial = distinct (train, labels, params, id order) that has equal '
+        'and firing_rate. Also: three trains of > 2**14 spikes whose bulk has no neighbour inside the window (one cluster made of isolated spikes only) with dense bursts at the start / middle / very end; every bin size of 1..300 samples (thorough: ..2500) with lags that are exact multiples of the bin; call histories in one process (id lists of different dtypes with equal bytes; >= 2**16-entry results held and written to by the caller across later calls of the same shape). non-trivial = distinct (train, labels, params, id order) that has equal '
         'times or a pair exactly in the last bin of the window AND an id list that is not sorted.')
 EXHAUSTIVE = {'quick': True, 'thorough': True}
 EXHAUSTIVE_SCOPE = {'quick': 'trains L<=5 on grid 0..4 (see rule); random long trains are sampled',
@@ -95,6 +95,20 @@ def run_shard(desc, ctx):
     for j in range(12):
         if j % desc['n'] == desc['shard']:
             run_case({'kind': 'call_history', 'variant': j, 'seed': [desc['seed'], j]}, ctx)
+    # long, mostly sparse trains (>= 2**14 spikes none of which has a neighbour inside the window, all in one cluster)
+    # with dense bursts of two other clusters at the start / in the middle / at the very end
+    if desc['shard'] < 3:
+        rl = np.random.default_rng([desc['seed'], desc['shard'], 1515])
+        n0 = int(rl.integers(2 ** 14 + 100, 21000))
+        bg = np.arange(n0, dtype=np.int64) * 50
+        where = [n0 * 50 + 20, (n0 // 2) * 50 + 20, -400][desc['shard']]
+        burst = where + np.cumsum(rl.integers(0, 3, size=60))
+        samples = np.r_[bg, burst]
+        labels = np.r_[np.zeros(n0, dtype=np.int64), 1 + rl.integers(0, 2, size=60)]
+        o = np.argsort(samples, kind='stable')
+        samples, labels = samples[o] - samples.min(), labels[o]
+        run_case({'samples': samples.tolist(), 'labels': labels.tolist(), 'k': 3, 'bin': 1, 'half': 10, 'rate': 1.0, 'perm': [2, 0, 1],
+                  'unused_pos': 1, 'windowed': True, 'bigids': False}, ctx)
     # random long trains
     rng = np.random.default_rng([desc['seed'], desc['shard'], 15])
     for r in range(desc['nrand'] // desc['n'] + 1):
